@@ -98,7 +98,7 @@ def report_cases(run, cases, codes, name, rule):
 
 def direct_props(run, keys_prefixes, n=None):
     """implementation-level clause checks (sk-props); reports the violation classes whose key starts with one of the prefixes"""
-    n = n or (300 if run.tier == "quick" else 5000)
+    n = n or (300 if run.depth == "quick" else 5000)
     rc, js, out, err = vlib.harness(["sk-props", "--seed", run.seed, "--n", n], timeout=2400)
     if rc != 0 or js is None:
         run.oblige("direct:sk-props", "correspondence", False, (out[-400:] + err[-400:]))
